@@ -32,16 +32,16 @@ VX int t_longest(void *t, const char *query, int len, int *value, int *success) 
     return r.length;
   } catch (...) { return -1; }
 }
-VX int t_get(void *t, const char *key, int *value, int *success) {
+VX int t_get(void *t, const char *key, int len, int *value, int *success) {
   try {
-    T::result_t r = ((T*) t)->get(key);
+    T::result_t r = ((T*) t)->get(key, len);
     *success = r.success() ? 1 : 0;
     *value = r.value();
     return r.length;
   } catch (...) { return -1; }
 }
-VX int t_has(void *t, const char *key) {
-  try { return ((T*) t)->has(key) ? 1 : 0; } catch (...) { return -1; }
+VX int t_has(void *t, const char *key, int len) {
+  try { return ((T*) t)->has(key, len) ? 1 : 0; } catch (...) { return -1; }
 }
 VX int t_has_char(void *t, int c) {
   try { return ((T*) t)->has((char) c) ? 1 : 0; } catch (...) { return -1; }
